@@ -116,6 +116,14 @@ func (e *FieldExpression) Evaluate(ctx *Context, input system.Collection) (syste
 		fieldName := strcase.ToSnake(e.FieldName)
 		reflect := message.ProtoReflect()
 		field := reflect.Descriptor().Fields().ByName(protoreflect.Name(fieldName))
+		if field != nil && !e.Permissive && field.JSONName() != e.FieldName {
+			// The spelling names a proto field, not an element: google/fhir renames
+			// elements that are reserved words (class -> class_value), lower-cases
+			// runs of capitals (carrierAIDC -> carrier_aidc) and stores a literal
+			// reference in a field called uri. An element is reached by its own name
+			// only, which is the JSON name of its field.
+			field = nil
+		}
 
 		// extract field and append to output, flattening
 		// if the field is a list. Raises error if field doesn't exist
